@@ -21,13 +21,13 @@ def gen_created(tier, rng):
     return cs
 
 
-def created_verify(res, tier, seed, rng, exe):
+def created_verify(res, tier, seed, rng, exe, cases=None):
     """every created container passes its check, and the digest it stores is blake3 over exactly the
     bytes the model says the check covers (masked view for the manifest)"""
     wd = os.path.join(res.workdir, "created")
     C.sh(["rm", "-rf", wd]); os.makedirs(wd)
     tmp = os.path.join(wd, "tmp")
-    cases = gen_created(tier, rng)
+    cases = cases or gen_created(tier, rng)
     with open(os.path.join(wd, "cases.txt"), "w") as f:
         f.write("".join(P.case_text(dict(c, ops=[]), seed) for c in cases))
     rc, log = C.run_rust(exe, os.path.join(wd, "cases.txt"), os.path.join(wd, "rust.out"), tmp)
@@ -106,8 +106,17 @@ def run(tier, seed, replay=None):
     if not (ok and okd):
         res.violation("build failed", (log + logd)[-3000:], found_input=False)
         return res.finish()
-    n_ok, n_packs, dist = created_verify(res, tier, seed, rng, exed)
-    out = D.explore(res, tier, seed)
+    only = D.parse_replay(replay) if replay else None
+    if replay and only is None:
+        rc = P.parse_replay(replay)
+        if not rc:
+            res.violation("replay file not understood", open(replay).read()[:500], found_input=False)
+            return res.finish()
+        n_ok, n_packs, dist = created_verify(res, tier, seed, rng, exed, cases=rc)
+        res.cov.update({"evaluations": len(rc), "distinct_nontrivial": n_packs, "rule": "replay of created containers", "samples": [P.case_text(rc[0], seed)], "exhaustive": False})
+        return res.finish()
+    n_ok, n_packs, dist = (0, 0, {}) if replay else created_verify(res, tier, seed, rng, exed)
+    out = D.explore(res, tier, seed, only)
     if out is None:
         return res.finish()
     n, hit, classes = 0, 0, {}
@@ -154,7 +163,7 @@ def run(tier, seed, replay=None):
         "rule": "created: every packaging x compression, sizes 0..40 entries, 0..2 extra content packs; check() true and stored digest == blake3(model range). "
                 "damaged: 3 base containers, every byte position (quick: every position of the one-file container, every 3rd elsewhere) x masks, zeroed / overwritten "
                 "ranges, truncations; non-trivial = at least one byte inside a checked range or check block really changes",
-        "samples": [c["op"] for c in list(out.values())[0]["cases"][200:203]],
+        "samples": [c["op"] for c in list(out.values())[0]["cases"][200:203]] or [c["op"] for c in list(out.values())[0]["cases"][:3]],
         "exhaustive": False,
     })
     return res.finish()
